@@ -225,8 +225,8 @@ def _mk_env(ctx, n, m):
 
 def step_harness(ctx, name, n, m):
     apply, ref, deps, domain, note = _ops()[name]
-    if name == "f.l2_norm(2)" and n != 2:
-        ctx.reach("end")            # the 2-vector norm is only defined for n == 2 in this harness
+    if (name == "f.l2_norm(2)" and n != 2) or (name in ("ad[[1,0,1]]",) and n < 2):
+        ctx.reach("end")            # operation not defined for this operand size in the harness
         return None
     e = _mk_env(ctx, n, m)
     for x in e["a"] + e["b"] + e["vv"]:
